@@ -150,6 +150,9 @@ func (l *Ledger) MergeViewRun(v *Ledger, isKnown func(*Obligation) bool) (replac
 		viewFuncs[o.Func] = true
 	}
 	var out []*Obligation
+	// functions for which some open group of the first pass is accepted on the strength of the view:
+	// what the other rules find on that same view counts as well
+	acceptedOnView := map[string]bool{}
 	for _, k := range order {
 		g := mine[k]
 		// a function literal that the view has expanded into its enclosing function no longer exists
@@ -169,6 +172,7 @@ func (l *Ledger) MergeViewRun(v *Ledger, isKnown func(*Obligation) bool) (replac
 				}
 				out = append(out, t...)
 				replaced++
+				acceptedOnView[k.fn] = true
 				continue
 			}
 			// neither pass discharges the group: report the more specific of the two — a violation
@@ -219,7 +223,7 @@ func (l *Ledger) MergeViewRun(v *Ledger, isKnown func(*Obligation) bool) (replac
 		}
 		// the rule saw nothing of the kind in the functions as written (it is below its floor there)
 		// and finds a violation on the view: that is where the construct lives now
-		if short[k.rule] {
+		if short[k.rule] || acceptedOnView[k.fn] {
 			for _, o := range t {
 				o.Detail += " [found on the inlined view only]"
 			}
